@@ -97,11 +97,6 @@ func implSetTimeRangeSeq(args []string) string {
 			if foldsFloat(stmt.Condition, nil) {
 				return "skip-float-arith"
 			}
-			// the printed condition may group differently when parsed again (known printing
-			// defect of `±1 * x` operands) and fold float arithmetic only then
-			if re, err := parseExprWith(stmt.Condition.String(), nil); err == nil && foldsFloat(re, nil) {
-				return "skip-float-arith"
-			}
 		}
 		if err := stmt.SetTimeRange(time.Unix(0, w.start).UTC(), time.Unix(0, w.end).UTC()); err != nil {
 			if isOracleError(err) {
@@ -392,13 +387,17 @@ func knownSetTimeRangeSeq(args []string) string {
 			return "C18-top-level-or-captures-the-window"
 		}
 	}
-	// the condition itself does not survive print -> parse (printing defects recorded under C02/C03)
+	// the condition itself does not survive print -> parse (printing defects recorded under C02/C03).
+	// SetTimeRange builds its condition as a tree since the fix of this finding, which is recorded as
+	// fixed: the class excuses nothing any more; it is kept to name the regression should the
+	// condition be printed and parsed again.
 	if re, err := parseExprWith(cond.String(), nil); err != nil || !exprEqual(re, cond) {
 		return "C18-condition-does-not-reparse"
 	}
 	// Reduce at the end of a call folded constant arithmetic of a predicate to a *TimeLiteral
-	// (`7 - 0s`, `'2000-01-01' - 0`); a time literal prints as a quoted string and the next call
-	// reads it back as a *StringLiteral: the predicate is a different one from then on.
+	// (`7 - 0s`, `'2000-01-01' - 0`); a time literal prints as a quoted string and the text route
+	// read it back as a *StringLiteral on the next call: the predicate was a different one from then
+	// on. Fixed together with the class above (nothing is parsed any more); excuses nothing.
 	if _, _, _, ws, bad := strParse(args); !bad {
 		stmt := &influxql.SelectStatement{Condition: influxql.CloneExpr(cond)}
 		for _, w := range ws {
@@ -459,7 +458,11 @@ func randSTRCond(r *rand.Rand, depth int, timeOK bool) string {
 			}
 			return name + " " + op + " " + randTimeOperand(r, true)
 		}
-		switch r.Intn(8) {
+		switch r.Intn(10) {
+		case 8: // a negated operand (the tree does not survive print -> parse; former finding)
+			return randNegatedOperand(r)
+		case 9: // constant arithmetic that Reduce folds to a time literal (former finding)
+			return randFoldsToTime(r)
 		case 0:
 			return pick(r, []string{"true", "false", "1 = 1", "1 = 2"})
 		case 1:
@@ -482,6 +485,66 @@ func randSTRCond(r *rand.Rand, depth int, timeOK bool) string {
 	default:
 		return "(" + randSTRCond(r, depth-1, timeOK) + ")"
 	}
+}
+
+// randNegatedOperand: a predicate with a signed operand after %, / or *: the parser builds
+// `n % (-1 * a)`, which prints as `n % -1 * a` and parses back as `(n % -1) * a`. SetTimeRange used
+// to print and parse the condition (finding C18-condition-does-not-reparse, fixed: it builds a tree).
+func randNegatedOperand(r *rand.Rand) string {
+	vars := []string{"n", "a", "b", "value"}
+	operand := pick(r, vars)
+	switch r.Intn(5) {
+	case 0:
+		operand = pick(r, []string{"abs", "neg", "f"}) + "(" + pick(r, vars) + ")"
+	case 1:
+		operand = "(" + pick(r, vars) + " " + pick(r, []string{"+", "-", "*"}) + " " + pick(r, []string{"1", "2", "n"}) + ")"
+	}
+	sign := "-"
+	if r.Intn(6) == 0 {
+		sign = "+"
+	}
+	lhs := pick(r, vars)
+	if r.Intn(4) == 0 {
+		lhs = pick(r, []string{"2", "7", "abs(n)", "(a + b)"})
+	}
+	pred := lhs + " " + pick(r, []string{"%", "/", "*"}) + " " + sign + operand
+	if r.Intn(5) == 0 { // a second factor: `n * -a / -b`
+		pred += " " + pick(r, []string{"%", "/", "*"}) + " -" + pick(r, vars)
+	}
+	if r.Intn(2) == 0 {
+		return pred + " " + pick(r, []string{"=", "!=", "<", "<=", ">", ">="}) + " " + pick(r, []string{"1", "0", "-1", "2", "n"})
+	}
+	return pick(r, []string{"1", "0", "-1", "2", "n"}) + " " + pick(r, []string{"=", "!=", "<", "<=", ">", ">="}) + " " + pred
+}
+
+// randFoldsToTime: a predicate with constant arithmetic that the Reduce at the end of a call folds to
+// a *TimeLiteral (integer +- duration, date string +- duration or integer, duration + date string). A
+// time literal prints as a quoted string; the text route read it back as a *StringLiteral on the next
+// call (finding C18-folded-time-literal-comes-back-as-string, fixed: nothing is parsed any more).
+func randFoldsToTime(r *rand.Rand) string {
+	dates := []string{"'2000-01-01'", "'2000-01-01T00:00:00Z'", "'2000-01-01 00:00:00'", "'1999-12-31T23:59:59.5Z'", "'1970-01-01'"}
+	durs := []string{"0s", "1s", "10m", "1h", "1u", "2w"}
+	var t string
+	switch r.Intn(6) {
+	case 0:
+		t = fmt.Sprintf("%d %s %s", r.Intn(100), pick(r, []string{"-", "+"}), pick(r, durs))
+	case 1:
+		t = pick(r, dates) + " " + pick(r, []string{"-", "+"}) + " " + pick(r, durs)
+	case 2:
+		t = pick(r, dates) + " " + pick(r, []string{"-", "+"}) + " " + fmt.Sprint(r.Intn(10))
+	case 3:
+		t = pick(r, durs) + " + " + pick(r, dates)
+	case 4:
+		t = fmt.Sprintf("%d - 0s + %s", r.Intn(10), pick(r, durs))
+	default:
+		t = pick(r, []string{"7 - 0s", "'2000-01-01' - 0"})
+	}
+	v := pick(r, []string{"b", "a", "host", "region", `""`, "n"})
+	op := pick(r, []string{"<>", "!=", "=", "<", ">="})
+	if r.Intn(2) == 0 {
+		return t + " " + op + " " + v
+	}
+	return v + " " + op + " " + t
 }
 
 // randTopOr: an OR at the top (the shape SetTimeRange has to parenthesise): 2-4 disjuncts, plain,
@@ -533,8 +596,14 @@ func genSetTimeRangeSeq(r *rand.Rand, n int, emit func(args ...string)) {
 		"host = 'a' OR host = 'b' AND time > now() - 1h", "host = 'a' AND tImE > now() - 1h OR host = 'b' AND tImE > now() - 2h OR host = 'c'",
 		"host = 'a' OR false", "false OR host = 'a'", "true OR host = 'a'", "host = 'a' OR true", "false OR false", "time > 5 OR time < 3", "host =~ /a/ OR host !~ /b|c/",
 		"value > abs(n) OR host = 'a'", "host = 'a' OR host = 'b' OR (region = 'x' AND (value > 1 OR n < 2))", "((host = 'a' OR host = 'b'))", "time OR host = 'a'",
-		// constant arithmetic that Reduce folds to a time literal (printed as a string on the next call: open finding)
+		// constant arithmetic that Reduce folds to a time literal (the text route read it back as a string on the next call: fixed)
 		"7 - 0s <> b", "\"\" != '2000-01-01' - 0", "host = 'a' AND '2000-01-01T00:00:00Z' + 1h > b AND time > 5",
+		"b = 1h + '2000-01-01'", "7 - 0s <> b OR host = 'a'", "(n < -1 OR '2000-01-01' + 1h = x)", "b <> 5 + 10m AND a <> '2000-01-01' - 1 AND time < 10",
+		// negated operands after % / * (the tree does not survive print -> parse: fixed, the condition is built as a tree)
+		"b / -a > 1", "n % -a > 1 AND time > 5", "v * -f(x) > 1", "value * -abs(n) < 0 AND time > now() - 1h", "n % +a > 1", "n * -a / -b >= 1",
+		"1 < n % -(a + 1)", "n % -a > 1 OR b / -a > 1", "(n % -a > 1 OR host = 'a') AND time > 5", "2 / -n = 1 AND 7 - 0s <> b",
+		// other results of Reduce that do not print as themselves (unsigned below 2^63, NaN) and a rewrite that does not print as an expression
+		"9223372036854775808 - 1 = v", "host =~ /a/ + time",
 	}
 	for _, s := range corpus {
 		emit(encStr(s), encWindows(w3), encLower(s))
@@ -542,7 +611,22 @@ func genSetTimeRangeSeq(r *rand.Rand, n int, emit func(args ...string)) {
 	}
 	for i := 0; i < n; i++ {
 		var text string
-		switch r.Intn(20) {
+		switch r.Intn(23) {
+		case 20: // negated operand next to other predicates and bounds
+			text = randNegatedOperand(r)
+			if r.Intn(3) > 0 {
+				text += " AND " + randSTRCond(r, 1+r.Intn(2), true)
+			}
+		case 21: // folds to a time literal on the first call
+			text = randFoldsToTime(r)
+			if r.Intn(3) > 0 {
+				text = randSTRCond(r, 1+r.Intn(2), true) + " AND " + text
+			}
+		case 22: // both, under OR / parentheses
+			text = "(" + randNegatedOperand(r) + " OR " + randFoldsToTime(r) + ")"
+			if r.Intn(2) == 0 {
+				text += " AND " + randTimeName(r) + " > " + randTimeOperand(r, true)
+			}
 		case 0:
 			text = randExprText(r, 0, r.Intn(5))
 		case 1, 2, 3:
@@ -571,10 +655,19 @@ func init() {
 				orTop := ""
 				if len(args) > 0 {
 					if text, err := decStr(args[0]); err == nil && strings.Trim(text, " ") != "" {
-						if cond, err := parseExprWith(text, nil); err == nil && rewrittenTopIsOr(cond) {
-							orTop = ",or-at-top"
+						if cond, err := parseExprWith(text, nil); err == nil {
+							if rewrittenTopIsOr(cond) {
+								orTop = ",or-at-top"
+							}
+							// the two shapes of the former text-route findings
+							if re, err := parseExprWith(cond.String(), nil); err != nil || !exprEqual(re, cond) {
+								orTop += ",does-not-reparse"
+							}
 						}
 					}
+				}
+				if strings.Contains(out, "(time ") {
+					orTop += ",time-literal"
 				}
 				return fmt.Sprintf("ok-%d-calls%s", strings.Count(out, " | "), orTop)
 			case strings.HasPrefix(out, "skip"):
